@@ -396,6 +396,7 @@ fn reference_mb(input: &[u8]) -> Vec<(String, usize, usize)> {
 }
 
 fn observe_mb(input: &[u8]) -> Vec<(String, usize, usize)> {
+    crate::tick(|| format!("enum MB, input {:?}", String::from_utf8_lossy(input)));
     let r = std::panic::catch_unwind(|| {
         let mut lex = Lexer::<MB>::new(input);
         let mut items = vec![];
@@ -529,6 +530,7 @@ where
     T: Logos<'s, Source = str, Extras = Log> + std::fmt::Debug,
     T::Error: std::fmt::Debug,
 {
+    crate::tick(|| format!("enum {}, input {input:?}", std::any::type_name::<T>()));
     let r = std::panic::catch_unwind(std::panic::AssertUnwindSafe(|| {
         let mut lex = Lexer::<T>::new(input);
         let mut items = vec![];
